@@ -264,7 +264,8 @@ func (e *episode) judge(kind string, raw []byte, fullDump bool) *outcome {
 		so := e.k.Ch.LastBlock().SigopsCost
 		if fmt.Sprintf("ok:%d", so) != oc.model {
 			r.TieFail("model-sigopscost", fmt.Sprintf("kind %q: SigopsCost real=%d model=%s", kind, so, oc.model), doc(oc))
-			bad = true
+			// the four states still describe the same chain: keep the episode going so that a limit kind can show
+			// the property failing
 		} else {
 			r.TieOK()
 		}
